@@ -3,6 +3,7 @@
 -/
 import SolverzModel.Core.Ctl.DaeIc
 import SolverzModel.Proofs.Vars
+import Mathlib.Tactic.Linarith
 namespace Solverz
 
 theorem scatter_untouched {α} (y : List α) (idx : List Nat) (vals : List α) (i : Nat) (hi : i ∉ idx) :
@@ -130,5 +131,20 @@ example : (match daeIc ratO
       dirAt := fun y => [y.getD 1 0 - y.getD 0 0], relNorm := fun d b => ratO.abs (d.getD 0 0 / b.getD 0 1) }
     [1] (1/1000000) (1/100000000) (1/1000000) [1, 3] with
     | .ok (y, e) => y == [1, 1] && e == IcExit.B | .error _ => false) = true := by decide +kernel
+
+/-- the threshold is fixed: with the acceptance bound of the Newton branch `rtolB = min(1e-5·rtol, 1e-6) ≤ tolA = 1e-6` (what the code
+uses now; before the repair `rtolB = 1e-5·rtol` exceeded 1e-6 for rtol > 0.1) every returned point has algebraic residual ≤ 1e-6,
+whatever exit was taken and whatever rtol is -/
+theorem C11_fixed_threshold (or : IcOracle ℚ) (algVar : List Nat) (tolA rtolB rtolC : ℚ) (hB : rtolB ≤ tolA)
+    (y0 y : List ℚ) (e : IcExit) (h : daeIc ratO or algVar tolA rtolB rtolC y0 = .ok (y, e)) :
+    or.algRes y ≤ tolA := by
+  have hc := C11_consistent ratO or algVar tolA rtolB rtolC y0 y e h
+  have hle : ∀ a b : ℚ, ratO.le a b = true ↔ a ≤ b := by intro a b; simp [ratO]
+  by_cases he : e = .B
+  · exact le_trans ((hle _ _).mp (hc.1 he)) hB
+  · exact (hle _ _).mp (hc.2 he)
+
+/-- the bound the code computes satisfies the hypothesis for every rtol -/
+example (rtol : ℚ) : min (rtol / 100000) (1 / 1000000) ≤ (1 / 1000000 : ℚ) := min_le_right _ _
 
 end Solverz
